@@ -2,8 +2,10 @@ SPECIFICATION TraceSpec
 CONSTANTS
   CodeUnanchored = FALSE
   CodeNoRange = FALSE
-  Zones = {"UTC", "Asia/Kolkata", "America/New_York"}
+  Zones = {"UTC", "Asia/Kolkata", "America/New_York", "Europe/Berlin"}
+  FormatKinds = {"chrono", "dayfirst", "timefirst", "unix", "withz", "dirday"}
   AllowTs = TRUE
+  AllProfiles = TRUE
 INVARIANT Verdicts
 INVARIANT Drift
 POSTCONDITION Accepted
